@@ -856,7 +856,7 @@ int main(int argc, char **argv)
 	nx_trace_every = atoi(nv_arg(argc, argv, "trace", nv_thorough ? "397" : "211"));
 	signal(SIGPIPE, SIG_IGN);
 	build_ops();
-	d = atoi(nv_arg(argc, argv, "depth", nv_thorough ? "4" : "3"));
+	d = atoi(nv_arg(argc, argv, "depth", nv_thorough ? "5" : "3"));
 	if (nv_arg(argc, argv, "cfg", NULL)) {
 		sscanf(nv_arg(argc, argv, "cfg", "0,0,0"), "%d,%d,%d", &b, &r, &o);
 		nx_shard_div = 1;
